@@ -204,7 +204,8 @@ Close == /\ mode = "open" /\ Quiescent /\ mode' = "closed"
 Damage(i, kind) ==
   /\ mode = "closed" /\ disk[i] # "none"
   /\ kind \in {"bad", "badlen", "none"}
-  /\ disk' = [disk EXCEPT ![i] = kind]
+  \* (flipping bytes of a file whose length is already wrong leaves a file of the wrong length)
+  /\ disk' = [disk EXCEPT ![i] = IF kind = "bad" /\ disk[i] = "badlen" THEN "badlen" ELSE kind]
   /\ UNCHANGED <<state, mode, pc, op, cur, todel, res, hist>>
 
 (* a file planted under a valid item name: wrong bytes of the right or of a wrong length *)
